@@ -34,6 +34,8 @@ func (h *Handler) StartHunt(addr packet.Addr) (packet.HuntStage, error) {
 		return packet.StageNoChange, packet.ErrInvalidIP
 	}
 
+	// keep a private copy: the caller may pass a view of its packet buffer (frame.SrcAddr)
+	addr.MAC = packet.CopyMAC(addr.MAC)
 	h.arpMutex.Lock()
 	defer h.arpMutex.Unlock()
 	if _, found := h.huntList[string(addr.MAC)]; found {
